@@ -12,7 +12,8 @@ PINS = {
     "C17_span": "forall docs tl col e, 1 <= col -> linecol_to_index docs tl col e <> RPanic",
     "C17_span_in_bounds": "forall docs tl col e i, 1 <= col -> linecol_to_index docs tl col e = RSome i -> exists d idx, In d docs /\\ i = d_start d + idx /\\ idx <= lenN (d_value d) /\\ is_char_boundary (d_value d) idx = true",
     "C17_span_column_zero_refuted": "linecol_to_index",
-    "C17_indent": "forall ind a, (forall n, n <= 12 -> ind n = indent_real n) -> print_with ind a = print a",
+    "C17_indent": "forall ind a, (forall n, (n <= 12)%nat -> ind n = indent_real n) -> print_with ind a = print a",
+    "C17_sourcepos": "forall docs sl sc el ec, 1 <= sc -> 1 <= ec -> sourcepos_to_span docs sl sc el ec <> SPanic",
 }
 SIZES = {"quick": (12000, 8), "thorough": (640000, 16)}
 
